@@ -223,6 +223,19 @@ class Interp:
                     if d.endswith("Builder"):
                         from . import roles
                         roles.alias(self.F, sv)
+                        if not elem and not getattr(self.F, "_binv_busy", False):
+                            self.F._binv_busy = True
+                            try:
+                                inv = roles.builder_invariants(self.F).get(d)
+                            finally:
+                                self.F._binv_busy = False
+                            from .lin import SYM_BOUNDS
+                            for f_, c_ in (inv or {}).items():
+                                x_ = sv.fields.get(f_)
+                                if isinstance(x_, IntV):
+                                    a_ = x_.l.single_atom()
+                                    if a_ and a_[1] == 1 and a_[0][0] == "sym":
+                                        SYM_BOUNDS[a_[0]] = c_
                     return sv
                 return EnumV(d, (tuple(name), elem))
             return Opaque("adt " + t["s"])
